@@ -1,7 +1,8 @@
 // C01 correspondence harness: the REAL block.Manager (NewManager, aggregator with signer, on a recording
 // map datastore) is driven one publishBlockInternal step at a time through random sequences of
 // sequencing-layer responses (non-empty / empty / absent batches, transient errors, equal, increasing and
-// decreasing timestamps, transactions of 0..64 bytes and one of 100 kB) and execution-layer outcomes.
+// decreasing timestamps, transactions of 0..64 bytes and one of 100 kB) and execution-layer outcomes
+// (errors; state roots of length 0; returned maxBytes values from 0 to 1<<20, mostly below the size of later batches).
 // Go oracle (harness/producer/oracle.go): every committed block is hash-linked, time-monotone, commits to
 // the batch it was built from, carries the delayed state root, is signed by the genesis proposer and
 // passes ValidateBasic / types.Validate / execValidate; plus the no-wedge probe (three well-formed
@@ -32,7 +33,17 @@ func gen(r *rand.Rand, tier string, c int, _ int64) (producer.Cfg, []producer.It
 	if r.Intn(20) == 0 {
 		h = append(h, producer.Item{T: "boot", InitErr: true}) // the execution layer is not up yet
 	}
-	h = append(h, producer.Item{T: "boot"})
+	// what the execution layer hands back with a success: a root of length 0 in a fraction of the calls, and a
+	// maxBytes value that is often far below the size of the batches that follow
+	execOutcome := func(it *producer.Item) {
+		it.EmptyRoot = r.Intn(100) < 12
+		if r.Intn(100) < 40 {
+			it.MaxB = []int64{-1, 1, 10, 100, 100, 1000}[r.Intn(6)]
+		}
+	}
+	first := producer.Item{T: "boot"}
+	execOutcome(&first)
+	h = append(h, first)
 	cur := cfg.GOff
 	for i := 0; i < n; i++ {
 		it := producer.Item{T: "step"}
@@ -75,13 +86,14 @@ func gen(r *rand.Rand, tier string, c int, _ int64) (producer.Cfg, []producer.It
 		}
 		it.ExecErr = r.Intn(100) < 7
 		it.Peek = r.Intn(100) < 25 // a client reads the store while the execution layer works
+		execOutcome(&it)
 		h = append(h, it)
 	}
 	return cfg, h
 }
 
 func TestVerif(t *testing.T) {
-	rule := "boot (5%: a first boot whose InitChain fails) then 1..40 (quick) / 1..120, every 10th case 1..300 (thorough) production steps; sequencer response 50% non-empty batch (1-5 txs of 1-64 bytes, 5% zero-length, 2.5% one 100 kB tx), 25% empty batch, 12% absent batch, 13% transient error; timestamp delta 15% regress / 10% equal / 75% advance by 1..5000 ms; 7% execution errors; in 25% of the steps a client of the node reads the height being produced and the one below through the node's store while the execution layer works (between the early and the final save); after EVERY item the blocks the node's store serves (same store object as the Manager's) at the tip, the pending height, the heights written and two older heights are checked and compared with a freshly opened store; initial height from {1,1,2,5,1000}; lazy/normal mode flag random; non-trivial = at least 3 steps and one committed block; distinct = distinct (configuration, history)"
+	rule := "boot (5%: a first boot whose InitChain fails) then 1..40 (quick) / 1..120, every 10th case 1..300 (thorough) production steps; sequencer response 50% non-empty batch (1-5 txs of 1-64 bytes, 5% zero-length, 2.5% one 100 kB tx), 25% empty batch, 12% absent batch, 13% transient error; timestamp delta 15% regress / 10% equal / 75% advance by 1..5000 ms; 7% execution errors; every successful InitChain / ExecuteTxs hands back a state root of length 0 (nil or empty) with probability 12% and a maxBytes value of 1<<20 (60%) or one of {0, 1, 10, 100, 100, 1000} (40%) - the sequencer double ignores the MaxBytes of the request, so later batches (1-5 txs of 1-64 bytes, the 100 kB tx) are routinely larger than the last reported value; in 25% of the steps a client of the node reads the height being produced and the one below through the node's store while the execution layer works (between the early and the final save); after EVERY item the blocks the node's store serves (same store object as the Manager's) at the tip, the pending height, the heights written and two older heights are checked and compared with a freshly opened store; initial height from {1,1,2,5,1000}; lazy/normal mode flag random; non-trivial = at least 3 steps and one committed block; distinct = distinct (configuration, history)"
 	producer.Main(t, "C01", gen, rule, func(cfg producer.Cfg, h []producer.Item, obs []producer.Obs) bool {
 		steps, commits := 0, 0
 		for i, it := range h {
